@@ -54,14 +54,15 @@ def mobsJ (m : MObs String) : J := J.arr [S m.name, optD m.content, optD m.md5]
 
 def dirObs (s : Dir String) : J :=
   J.obj [("c", J.arr ((obsCompleted s).map mobsJ)), ("nc", J.arr ((obsNotCompleted s).map mobsJ)),
-         ("logs", J.arr (s.logs.map fun p => J.arr [S p.1, J.str p.2]))]
+         ("logs", J.arr ((obsLogs s).map fun p => J.arr [S p.1, J.str p.2])),
+         ("dirs", J.arr [J.bool s.ncDir, J.bool s.logsDir])]
 
-def runDir : Dir String → List (Op String) → List J
+def runDir (cfg : Cfg) : Dir String → List (Op String) → List J
   | _, [] => []
   | s, op :: ops =>
-    let (s1, r) := step id s op
+    let (s1, r) := step cfg id s op
     let o := if isObs op then [("obs", dirObs s1)] else []
-    J.obj (("r", resJ r) :: o) :: runDir s1 ops
+    J.obj (("r", resJ r) :: ("d", J.arr [J.bool s1.ncDir, J.bool s1.logsDir]) :: o) :: runDir cfg s1 ops
 
 open CogentModel.DataStoreSqlite in
 def sqlObs (s : Sql String) : J :=
@@ -111,7 +112,8 @@ def handle (cmd : String) (j : J) : Except String J :=
     let sfx := (← (← j.get "sfx").toStr).toList
     let mode ← parseMode (← j.get "mode")
     let ops ← (← j.get "ops").toListOf parseOp
-    pure (J.arr (runDir (Dir.create mode sfx) ops))
+    let cfg : Cfg := { roOpenNoMkdir := ← (← j.get "ro_open").toBool, roWriteNoMkdir := ← (← j.get "ro_write").toBool }
+    pure (J.arr (runDir cfg (Dir.create mode sfx) ops))
   | "sql" => do
     let mode ← parseMode (← j.get "mode")
     let ops ← (← j.get "ops").toListOf parseOp
